@@ -155,6 +155,12 @@ impl Story {
             StoryState::check_arguments(args)?;
         }
 
+        // The first continue checks the external bindings and refuses to run when
+        // one is missing: do it here, while nothing has been pushed or cleared yet
+        if !self.has_validated_externals {
+            self.validate_external_bindings()?;
+        }
+
         // Snapshot the output stream and the "previous content" cursor, which decides
         // which containers the next divert counts as newly entered
         let output_stream_before = self.get_state().get_output_stream().clone();
